@@ -2,7 +2,7 @@
 matching generic instantiation on both the prover and the verifier side."""
 from .. import ir, dispatch, intervals
 from ..ir import AnchorLost, callee_of, op_local, op_const
-from ..patterns import calls_to, arg_slice, slice_field_bases
+from ..patterns import calls_to, arg_slice, slice_field_bases, slice_const_ints
 from .c03 import for_loops, FRIV, FRI_CH
 
 FRIP = "winter_fri::prover::FriProver::<E, C, H, V>::"
@@ -115,9 +115,50 @@ def r2_shared(ctx):
     ctx.ob("R2", "verifier-maps-partition-indexes", ok, "verifier maps folded positions with map_positions_to_indexes(.., self.num_partitions)", vg)
 
 
+def r3_remainder_exempt(ctx):
+    """completeness of the layer-degree check: the last committed layer may reduce to a remainder
+    shorter than the folding factor, so a DegreeTruncation rejection inside the layer loop must be
+    unreachable in the iteration where depth == layer_commitments.len() - 1."""
+    from ..patterns import cmp_sites
+    p = ctx.p
+    f = p.fn(FRIV + "new")
+    loops = for_loops(f)
+    errs = [s["_pos"][0] for b in f.blocks if not b.get("cleanup") for s in b["s"] if s["k"] == "assign" and s["rv"][0] == "agg"
+            and s["rv"][1].get("variant") == "DegreeTruncation"]
+    in_loop = [(L, e) for L in loops for e in errs if f.can_reach(e, [e]) or any(f.can_reach(x, [e], cut_blocks=[L["header"]]) for x in L["some"] if x in L["body"])]
+    if not loops:
+        raise AnchorLost("FriVerifier::new: layer loop not found")
+    if not in_loop:
+        ctx.ob("R3", "degree-check-exempts-remainder-layer", True,
+               "FriVerifier::new has no DegreeTruncation rejection inside its layer loop (nothing to exempt)", f)
+        return
+    for L, e in in_loop:
+        ok, how = False, "no comparison of the layer index with layer_commitments.len() - 1 guards the DegreeTruncation rejection"
+        for cs in cmp_sites(f):
+            if cs["bb"] not in L["body"] or cs["op"] not in ("Ne", "Eq"):
+                continue
+            sa = f.slice_of_operand(cs["a"], at=(cs["bb"], f.INF))
+            sb = f.slice_of_operand(cs["b"], at=(cs["bb"], f.INF))
+            for x, y in ((sa, sb), (sb, sa)):
+                idx = bool(set(L["item_locals"]) & x["locals"]) or L["item_local"] in x["locals"]
+                ynames = {(callee_of(f.term(b)) or {}).get("name") for b in y["calls"]}
+                last = "len" in ynames and 1 in slice_const_ints(y)
+                if not (idx and last):
+                    continue
+                for c in f.bool_checks_of_local(cs["local"]):
+                    eq_edges = c["false_edges"] if cs["op"] == "Ne" else c["true_edges"]
+                    reach_on_last = any(f.can_reach(tg, [e], cut_blocks=[L["header"]]) for _, tg in eq_edges)
+                    if not reach_on_last:
+                        ok, how = True, "the rejection is unreachable when depth == layer_commitments.len() - 1 (%s at bb%d)" % (cs["op"], cs["bb"])
+        ctx.ob("R3", "degree-check-exempts-remainder-layer", ok,
+               "FriVerifier::new: " + how, f, f.blocks[e]["s"][0]["sp"]["at"] if f.blocks[e]["s"] else None)
+
+
 def run(ctx):
     ctx.rule("R1", "folding-factor dispatch tables (prover build_layers/build_proof, verifier verify, verify_generic internals) map k to N = k for k in {2,4,8,16} = the sets accepted by FriOptions::new and ProofOptions::new; otherwise arms reject", 10)
     ctx.rule("R2", "prover and verifier fold positions with the same function and shrink the domain by the folding factor once per layer; num_fri_layers is the one shared loop bound", 8)
     ctx.guard("R1", r1_tables)
     ctx.guard("R2", r2_shared)
+    ctx.rule("R3", "a DegreeTruncation rejection inside FriVerifier::new's layer loop is unreachable on the last committed layer (depth == layer_commitments.len() - 1), whose remainder may be shorter than the folding factor", 1)
+    ctx.guard("R3", r3_remainder_exempt)
     ctx.assume("the algebra of degree-respecting projection, index mapping and remainder evaluation is value-level and not decided")
